@@ -229,6 +229,9 @@ impl Expr {
 
 impl Expression for Expr {
     fn resolve(&self, ctx: &mut Context) -> Resolved {
+        #[cfg(feature = "verif-hooks")]
+        crate::verif::yield_point("expr");
+
         use Expr::{
             Abort, Assignment, Container, FunctionCall, IfStatement, Literal, Noop, Op, Query,
             Return, Unary, Variable,
